@@ -19,6 +19,11 @@ def rec_prog(d):
     return f"fn r(n: int) -> int {{ if n == 0 {{ 0 }} else {{ 1 + r(n - 1) }} }}\nfn main() {{ println(r({d})); }}\n"
 
 
+def rec_val_prog(d):
+    """the same recursion, every call of the cycle through a function VALUE (Call_Val instead of Call_Imm)"""
+    return f"fn r(n: int) -> int {{ if n == 0 {{ 0 }} else {{ let f = r; 1 + f(n - 1) }} }}\nfn main() {{ let g = r; println(g({d})); }}\n"
+
+
 def nest_prog(n):
     return "fn main() { println(" + "(1 + " * n + "1" + ")" * n + "); }\n"
 
@@ -66,6 +71,7 @@ def cases(ctx):
         for d in sorted(set([1, calls // 2, calls - 3, calls - 2, calls - 1, calls, calls + 1, calls + 2, calls + QUANTUM + 5, 3 * calls])):
             if d > 0:
                 out.append(("rec", (calls, 500, 100000), rec_prog(d), {"calls_used": d, "limit": calls}))
+                out.append(("rec", (calls, 500, 100000), rec_val_prog(d), {"calls_used": d, "limit": calls, "via": "function value"}))
     for stack in ([30, 120] + ([8, 500] if thorough else [])):
         for n in sorted(set([1, stack // 2, stack - 3, stack - 1, stack, stack + 1, stack + 2 * QUANTUM + 5, 3 * stack + 2 * QUANTUM])):
             if n > 0:
